@@ -236,3 +236,37 @@ def extra_checks(rng, tier, g, info):
                                            sp, det.get("status"), hit[:24]))
                                 return
     info["paranoia_option_placements"] = m
+    # CRASH POINTS: the run is interrupted (KeyboardInterrupt, what Ctrl-C does) at its k-th derivation step, for k
+    # spread over the whole run; whatever is on standard output or in the target file at that moment contains no secret
+    import bisect
+    q = 0
+    for argv, known in ((["--paranoia", "--file", "@F", "--interval", "0", "3", "from-bip39-seed", SEED], secrets),
+                        (["--paranoia", "--interval", "0", "3", "from-bip39-seed", SEED], secrets),
+                        (["--paranoia", "--file", "@F", "--interval", "0", "2", "new", "--password", "correct horse battery"], None)):
+        osb = bytes(rng.getrandbits(8) for _ in range(40))
+        _, det0 = impl.cli_run("absent", osb, argv)
+        total = det0.get("hmac_calls") or 0
+        if known is None:
+            from .c12 import mnemonic as indep_mnemonic
+            known = {indep_mnemonic(osb[:32]), "correct horse battery"}
+            for tx in (det0.get("stdout") or "", det0.get("created") or ""):
+                if any(s_ in tx for s_ in known):
+                    yield ("cli absent %s %s" % (hx(osb), ",".join(sx(a) for a in argv)), "a --paranoia run shows the new wallet's mnemonic / passphrase")
+                    return
+        ks = sorted(set([1, 2, 3, 4, 5, 8, 13, 21, total // 2, total - 1, total] + [rng.randint(1, max(1, total)) for _ in range(4)]))
+        for k in [k_ for k_ in ks if 1 <= k_ <= total] if tier == "thorough" else [k_ for k_ in ks if 1 <= k_ <= total][:9]:
+            canon, det = impl.cli_run("absent", osb, argv, interrupt_at=k)
+            q += 1
+            for where, tx in (("standard output", det.get("stdout") or ""), ("the target file", det.get("created") or "")):
+                hit = next((s_ for s_ in known if s_ in tx), None)
+                if hit is None:
+                    for path, leaf in (leaves(json.loads(tx)) if tx.strip().startswith("{") and tx.strip().endswith("}") else []):
+                        if is_private_encoding(leaf):
+                            hit = leaf
+                            break
+                if hit:
+                    yield ("# cli (target absent) %s, OS bytes %s, interrupted (KeyboardInterrupt) at HMAC call %d of %d" % (
+                        " ".join(argv), osb.hex(), k, total),
+                        "a --paranoia run that was interrupted left a secret in %s: %s..." % (where, hit[:24]))
+                    return
+    info["paranoia_crash_points"] = q
